@@ -73,6 +73,8 @@ def run(ck: Checker, prog: Program, tier: str):
         ck.guard(c20._read_only, ck, prog)
     with ck.borrow(c05, "C06.R4+"):
         ck.guard(S.check_mask_properties, ck, prog, "C05.R1")
+    from .common import check_identity_comparisons as _cic
+    ck.guard(_cic, ck, prog, "C06.R1", "C06")
 
 
 def _iteration_loop(inner) -> ast.For:
